@@ -18,5 +18,6 @@ CONSTANTS
   UseReopen = TRUE
   UseEpochs = TRUE
   OccSet = {FALSE, TRUE}
+  MinCleanSegs = 1
   UseReaders = TRUE
 CHECK_DEADLOCK FALSE
